@@ -60,7 +60,7 @@ ARemap(kind, i, m) ==
              [] kind = "rewire"      -> Rewire(convs[i], m) IN
   /\ hist' = Append(hist, [k |-> kind, i |-> i, m |-> m])
   /\ last' = r.out
-  /\ sigs' = Append(sigs, IF kind = "remap_curie" THEN <<kind, RemapBranches(convs[i], m)>>
+  /\ sigs' = Append(sigs, IF kind = "remap_curie" THEN <<kind, RemapBranches(convs[i], m), <<>> \in KnownP(convs[i]), <<>> \in (MKeys(m) \cup MVals(m))>>
                           ELSE <<kind, r.out[1], RepointBranches(convs[i], m, kind = "remap_uri")>>)
   /\ convs' = IF r.out = Ok THEN Append(convs, r.conv) ELSE convs
 
